@@ -36,6 +36,7 @@ type chainScenario struct {
 	ID        string `json:"id"`
 	Transport string `json:"transport"` // obfs4 | obfs3 | obfs2
 	IAT       int    `json:"iat"`
+	Seg       []int  `json:"seg"` // the middlebox forwards the first 12 KiB of each direction in segments of these sizes (cycled)
 	Steps     []struct {
 		A string `json:"a"` // produce | end | cut | settle
 		E string `json:"e"` // app | or | wire
@@ -86,7 +87,7 @@ type middlebox struct {
 	conns []net.Conn
 }
 
-func newMiddlebox(target string) (*middlebox, error) {
+func newMiddlebox(target string, seg []int) (*middlebox, error) {
 	ln, err := net.Listen("tcp", "127.0.0.1:0")
 	if err != nil {
 		return nil, err
@@ -108,10 +109,28 @@ func newMiddlebox(target string) (*middlebox, error) {
 			m.mu.Unlock()
 			pipe := func(dst, src net.Conn) {
 				buf := make([]byte, 32768)
+				fwd, k := 0, 0
+			loop:
 				for {
 					n, err := src.Read(buf)
-					if n > 0 {
-						if _, werr := dst.Write(buf[:n]); werr != nil {
+					p := buf[:n]
+					// re-segmentation: the handshakes and the first data reach the far proxy in small pieces, each a
+					// TCP segment of its own (no delay on the socket, a pause behind each piece)
+					for len(seg) > 0 && fwd < 12288 && len(p) > 0 {
+						m := seg[k%len(seg)]
+						k++
+						if m > len(p) {
+							m = len(p)
+						}
+						if _, werr := dst.Write(p[:m]); werr != nil {
+							break loop
+						}
+						fwd += m
+						p = p[m:]
+						time.Sleep(150 * time.Microsecond)
+					}
+					if len(p) > 0 {
+						if _, werr := dst.Write(p); werr != nil {
 							break
 						}
 					}
@@ -209,7 +228,7 @@ func runChain(t *testing.T, w *vt.Writer, s *chainScenario) {
 			go serverHandler(sf, cn, info)
 		}
 	}()
-	mb, err := newMiddlebox(brLn.Addr().String())
+	mb, err := newMiddlebox(brLn.Addr().String(), s.Seg)
 	if err != nil {
 		t.Fatal(err)
 	}
